@@ -30,6 +30,7 @@ type fileModes struct {
 	sel   bool
 	mutex bool
 	stmt  map[string]bool
+	cases map[string]bool
 }
 
 var counter int
@@ -45,7 +46,7 @@ func main() {
 		}
 		fm := files[parts[1]]
 		if fm == nil {
-			fm = &fileModes{stmt: map[string]bool{}}
+			fm = &fileModes{stmt: map[string]bool{}, cases: map[string]bool{}}
 			files[parts[1]] = fm
 			order = append(order, parts[1])
 		}
@@ -61,6 +62,14 @@ func main() {
 			}
 			for _, f := range strings.Split(parts[2], ",") {
 				fm.stmt[f] = true
+			}
+		case "cases":
+			if len(parts) < 3 {
+				fmt.Fprintln(os.Stderr, "cases mode needs functions:", a)
+				os.Exit(2)
+			}
+			for _, f := range strings.Split(parts[2], ",") {
+				fm.cases[f] = true
 			}
 		default:
 			fmt.Fprintln(os.Stderr, "unknown mode", parts[0])
@@ -107,7 +116,8 @@ func processFile(path string, fm *fileModes) {
 			full = recvName(fd.Recv.List[0].Type) + "." + name
 		}
 		wantStmt := fm.stmt[name] || fm.stmt[full] || fm.stmt["*"]
-		if fm.mutex || wantStmt {
+		wantCases := fm.cases[name] || fm.cases[full] || fm.cases["*"]
+		if fm.mutex || wantStmt || wantCases {
 			r.ctxExpr = ctxFor(fd)
 			if r.ctxExpr == "context.Background()" {
 				needCtxImport = true
@@ -119,11 +129,16 @@ func processFile(path string, fm *fileModes) {
 		if fm.mutex {
 			r.mutexBlock(fd.Body)
 		}
+		if wantCases {
+			r.caseParks(fd.Body, full)
+		}
+		r.preSelect = wantCases
+		r.fn = full
 		if fm.sel {
 			fd.Body.List = r.selList(fd.Body.List)
 		}
 	}
-	if r.nSel+r.nMutex+r.nStmt > 0 {
+	if r.nSel+r.nMutex+r.nStmt+r.nCases > 0 {
 		addImport(f, vselPath)
 		if needCtxImport && !hasImport(f, "context") {
 			addImport(f, "context")
@@ -138,7 +153,7 @@ func processFile(path string, fm *fileModes) {
 		fmt.Fprintln(os.Stderr, err)
 		os.Exit(1)
 	}
-	fmt.Printf("%s: selects=%d (skipped %d) locksites=%d stmtyields=%d\n", path, r.nSel, r.nSkip, r.nMutex, r.nStmt)
+	fmt.Printf("%s: selects=%d (skipped %d) locksites=%d stmtyields=%d caseparks=%d\n", path, r.nSel, r.nSkip, r.nMutex, r.nStmt, r.nCases)
 }
 
 func recvName(e ast.Expr) string {
@@ -218,6 +233,10 @@ type rewriter struct {
 	nSkip   int
 	nMutex  int
 	nStmt   int
+	nCases  int
+
+	preSelect bool // park before each select of the current function (cases mode)
+	fn        string
 }
 
 func (r *rewriter) site(p token.Pos) string {
@@ -298,6 +317,37 @@ func (r *rewriter) stmtInner(s ast.Stmt, fn string) {
 	case *ast.LabeledStmt:
 		r.stmtInner(x.Stmt, fn)
 	}
+}
+
+// ---------------------------------------------------------------- cases mode
+
+// caseParks inserts vsel.Case(ctx, site, received) as the first statement of every
+// communication clause of every select in the function (func literals excluded: they have
+// their own context).
+func (r *rewriter) caseParks(b *ast.BlockStmt, fn string) {
+	ast.Inspect(b, func(n ast.Node) bool {
+		switch x := n.(type) {
+		case *ast.FuncLit:
+			return false
+		case *ast.CommClause:
+			if x.Comm == nil {
+				return true
+			}
+			var arg ast.Expr = ast.NewIdent("nil")
+			if as, ok := x.Comm.(*ast.AssignStmt); ok && as.Tok == token.DEFINE && len(as.Lhs) > 0 {
+				if id, ok := as.Lhs[0].(*ast.Ident); ok && id.Name != "_" {
+					arg = ast.NewIdent(id.Name)
+				}
+			}
+			call := &ast.ExprStmt{X: &ast.CallExpr{
+				Fun:  &ast.SelectorExpr{X: ast.NewIdent("vsel"), Sel: ast.NewIdent("Case")},
+				Args: []ast.Expr{parseExpr(r.ctxExpr), &ast.BasicLit{Kind: token.STRING, Value: strconv.Quote(fn + "@" + r.site(x.Pos()))}, arg},
+			}}
+			x.Body = append([]ast.Stmt{call}, x.Body...)
+			r.nCases++
+		}
+		return true
+	})
 }
 
 // ---------------------------------------------------------------- mutex mode
@@ -580,9 +630,18 @@ func (r *rewriter) rewriteSelect(sel *ast.SelectStmt) ast.Stmt {
 			}}},
 		}}
 	}
-	return &ast.BlockStmt{List: []ast.Stmt{orderCall, kInit,
+	stmts := []ast.Stmt{orderCall, kInit,
 		&ast.LabeledStmt{Label: retryL, Stmt: &ast.IfStmt{Cond: cond, Body: thenB, Else: &ast.BlockStmt{List: []ast.Stmt{sel}}}},
-	}}
+	}
+	if r.preSelect {
+		// the goroutine looks at its channels in a step of its own, when nobody else is running
+		pre := &ast.ExprStmt{X: &ast.CallExpr{
+			Fun:  &ast.SelectorExpr{X: ast.NewIdent("vsel"), Sel: ast.NewIdent("Case")},
+			Args: []ast.Expr{parseExpr(r.ctxExpr), &ast.BasicLit{Kind: token.STRING, Value: strconv.Quote(r.fn + "@" + site + ":select")}, ast.NewIdent("nil")},
+		}}
+		stmts = append([]ast.Stmt{pre}, stmts...)
+	}
+	return &ast.BlockStmt{List: stmts}
 }
 
 // ---------------------------------------------------------------- deep copy
